@@ -33,6 +33,8 @@ fn dictionary() -> Vec<&'static str> {
         "lbl = 1", "dreg = 1", "pc = 1", "svar = r16", "lbl = r16", "dreg", "svar", "pc",
         // paths that are not regular files, a function of itself
         "\"/dev/zero\"", "\".\"", "\"/\"", "exp2(cyc_a)", "log2(a)",
+        // register pairs in the colon notation of other assemblers, in order and out of order
+        "r25:r24", "r23:r24",
     ]
 }
 
